@@ -263,3 +263,96 @@ package tlb
 //@   label C25.tlb.respond.idgen
 //@   ensures idGenOK()
 //@   assigns m.comp.State.HasRespondingMSHR, m.comp.State.RespondingMSHRData.Requests, canSend, sendCnt, sentTyp, sentVal, issued, key("G|github.com/sarchlab/akita/v5/timing.idGenerator|"), key("G|github.com/sarchlab/akita/v5/timing.idGeneratorInstantiated|"), key("O|timing.sequentialIDGenerator|nextID"), key("O|timing.parallelIDGenerator|nextID")
+
+// ---- MSHR wrappers. mem/mshr.Find/IsPresent/Remove are verified over uninterpreted entry attributes (ePID/eAddr of an entry
+// VALUE); at the instantiated call mshr.Find[mshrEntryState] the engine cannot relate them to mshrEntryState.PID/.VAddr
+// ("ufunc ePID: argument e must be a scalar or an interface value"), and applying mem/mshr.Find's contract in this package is a spec error; the
+// MSHR-dependent functions (mshrGetEntry, lookup, processTLBMSHRHit, fetchBottom, parseBottom, mshrAdd, mshrRemove) are NOT decided ----
+//@ fn mshrIsFull
+//@   property C25
+//@   label C25.tlb.mshr.full
+//@   ensures result <==> len(entries) >= capacity
+//@   assigns nothing
+//@ fn mshrIsEmpty
+//@   property C25
+//@   label C25.tlb.mshr.empty
+//@   ensures result <==> len(entries) == 0
+//@   assigns nothing
+
+// ---- invalidation: afterwards NO block of ANY set holds a valid page matching the filter (pid 0 = every process, no
+// address = every page; an address matches the page whose VAddr is its PageSize-aligned base) ----
+//@ func alignP(a, ps) = (int(a) / int(ps)) * int(ps)
+//@ pred hitBy(pg, pid, nAddr, ma) = pg.Valid && (pid == 0 || pg.PID == pid) && (nAddr == 0 || ((pg.VAddr in ma) && ma[pg.VAddr]))
+//@ pred setClean(s, pid, nAddr, ma) = forall w in 0..len(s.Blocks) :: !hitBy(s.Blocks[w].Page, pid, nAddr, ma)
+//@ pred setCleanAll(s, pid) = forall w in 0..len(s.Blocks) :: !(s.Blocks[w].Page.Valid && (pid == 0 || s.Blocks[w].Page.PID == pid))
+//@ pred setsShape(state) = forall a in 0..len(state.Sets) :: state.Sets[a].LRU.keyMap != nil
+// the sets were built one by one (initSets / JSON load): their block arrays and key maps are pairwise distinct
+//@ pred setsApart(state) = forall a in 0..len(state.Sets) :: forall b in 0..len(state.Sets) :: a != b ==> ref(state.Sets[a].Blocks) != ref(state.Sets[b].Blocks) && state.Sets[a].LRU.keyMap != state.Sets[b].LRU.keyMap
+//@ fn invalidateEntries
+//@   property C25
+//@   requires state != nil && spec.PageSize > 0 && setsShape(state) && setsApart(state)
+//@   label C25.tlb.inval.listed
+//@   ensures forall j in 0..len(addresses) :: (alignP(addresses[j], spec.PageSize) in matchAddr) && matchAddr[alignP(addresses[j], spec.PageSize)]
+//@   label C25.tlb.inval.gone
+//@   ensures forall a in 0..len(state.Sets) :: setClean(state.Sets[a], pid, len(addresses), matchAddr)
+//@   label C25.tlb.inval.gone.all
+//@   ensures len(addresses) == 0 ==> forall a in 0..len(state.Sets) :: setCleanAll(state.Sets[a], pid)
+//@   label C25.tlb.inval.shape
+//@   ensures len(state.Sets) == old(len(state.Sets)) && setsShape(state)
+//@   assigns key("E|mem/vm/tlb.blockState|"), key("M|map[string]int|")
+//@   loop 0: invariant -1 <= rangeindex && rangeindex < len(addresses) && matchAddr != nil && len(state.Sets) == old(len(state.Sets)) && setsShape(state) && setsApart(state)
+//@   loop 0: invariant forall j in 0..rangeindex + 1 :: (alignP(addresses[j], spec.PageSize) in matchAddr) && matchAddr[alignP(addresses[j], spec.PageSize)]
+//@   loop 1: invariant -1 <= rangeindex && rangeindex < len(state.Sets) && len(state.Sets) == old(len(state.Sets)) && setsShape(state) && setsApart(state)
+//@   loop 1: invariant forall a in 0..rangeindex + 1 :: setClean(state.Sets[a], pid, len(addresses), matchAddr)
+//@   loop 2: invariant -1 <= rangeindex && rangeindex < len(set.Blocks) && len(state.Sets) == old(len(state.Sets)) && setsShape(state) && setsApart(state)
+//@   loop 2: invariant forall w in 0..rangeindex + 1 :: !hitBy(set.Blocks[w].Page, pid, len(addresses), matchAddr)
+//@   loop 2: invariant 0 <= si && si < len(state.Sets) && ref(set.Blocks) == ref(state.Sets[si].Blocks) && len(set.Blocks) == len(state.Sets[si].Blocks) && off(set.Blocks) == off(state.Sets[si].Blocks) && set.LRU.keyMap == state.Sets[si].LRU.keyMap
+//@   loop 2: invariant forall a in 0..si :: setClean(state.Sets[a], pid, len(addresses), matchAddr)
+
+// ---- the invalidate handler: only when paused; ONE acknowledgement, sent after the entries are gone ----
+//@ pred isCRsp(x) = hastype(x, "memcontrolprotocol.Rsp")
+//@ func cRsp(x) = as(x, "memcontrolprotocol.Rsp")
+//@ pred acked(m, cmd, id, src, success, err) = isCRsp(sentOn(ctlP(m))) && cRsp(sentOn(ctlP(m))).Command == cmd && cRsp(sentOn(ctlP(m))).RspTo == id && cRsp(sentOn(ctlP(m))).Dst == src && cRsp(sentOn(ctlP(m))).Success == success && cRsp(sentOn(ctlP(m))).Error == err
+//@ fn makeCtrlRsp
+//@   property C25
+//@   requires idGenOK()
+//@   label C25.tlb.ctrl.mkrsp
+//@   ensures result.Command == cmd && result.Success == success && result.Error == errStr && result.Dst == dst && result.RspTo == rspTo && result.Src == portRemote(port)
+//@   label C25.tlb.ctrl.mkrsp.idgen
+//@   ensures idGenOK()
+//@   assigns issued, key("G|github.com/sarchlab/akita/v5/timing.idGenerator|"), key("G|github.com/sarchlab/akita/v5/timing.idGeneratorInstantiated|"), key("O|timing.sequentialIDGenerator|nextID"), key("O|timing.parallelIDGenerator|nextID")
+
+//@ fn (*ctrlMiddleware).rejectMustBePaused
+//@   property C25
+//@   requires tlbWF(m) && idGenOK() && inTyp[ctlP(m)] != 0
+//@   label C25.tlb.reject.progress
+//@   ensures result <==> old(canSend[ctlP(m)])
+//@   label C25.tlb.reject.once
+//@   ensures result ==> oneMoreSent(ctlP(m)) && oneRetrieved(ctlP(m)) && acked(m, msg.Command, msg.ID, msg.Src, false, memcontrolprotocol.ErrMustBePausedOrDrained)
+//@   label C25.tlb.reject.blocked
+//@   ensures !result ==> nothingSent() && nothingRetrieved()
+//@   label C25.tlb.reject.idgen
+//@   ensures idGenOK()
+//@   assigns canSend, sendCnt, sentTyp, sentVal, inTyp, inVal, retrCnt, issued, key("G|github.com/sarchlab/akita/v5/timing.idGenerator|"), key("G|github.com/sarchlab/akita/v5/timing.idGeneratorInstantiated|"), key("O|timing.sequentialIDGenerator|nextID"), key("O|timing.parallelIDGenerator|nextID")
+
+//@ pred paused(m) = m.comp.State.TLBState == tlbStatePause
+//@ fn (*ctrlMiddleware).handleInvalidate
+//@   property C25
+//@   requires tlbWF(m) && idGenOK() && inTyp[ctlP(m)] != 0 && m.comp.spec.PageSize > 0 && setsShape(m.comp.State) && setsApart(m.comp.State)
+//@   label C25.tlb.invalidate.progress
+//@   ensures result <==> old(canSend[ctlP(m)])
+//@   label C25.tlb.invalidate.once
+//@   ensures result ==> oneMoreSent(ctlP(m)) && oneRetrieved(ctlP(m))
+//@   label C25.tlb.invalidate.blocked
+//@   ensures !result ==> nothingSent() && nothingRetrieved()
+//@   label C25.tlb.invalidate.ack
+//@   ensures result && old(paused(m)) ==> acked(m, memcontrolprotocol.CmdInvalidate, msg.ID, msg.Src, true, "")
+//@   label C25.tlb.invalidate.refused
+//@   ensures result && !old(paused(m)) ==> acked(m, msg.Command, msg.ID, msg.Src, false, memcontrolprotocol.ErrMustBePausedOrDrained)
+//@   label C25.tlb.invalidate.gone.all
+//@   ensures result && old(paused(m)) && len(msg.Addresses) == 0 ==> forall a in 0..len(m.comp.State.Sets) :: setCleanAll(m.comp.State.Sets[a], msg.PID)
+//@   label C25.tlb.invalidate.state
+//@   ensures unchanged(m.comp.State.TLBState)
+//@   label C25.tlb.invalidate.idgen
+//@   ensures idGenOK()
+//@   assigns key("E|mem/vm/tlb.blockState|"), key("M|map[string]int|"), canSend, sendCnt, sentTyp, sentVal, inTyp, inVal, retrCnt, issued, key("G|github.com/sarchlab/akita/v5/timing.idGenerator|"), key("G|github.com/sarchlab/akita/v5/timing.idGeneratorInstantiated|"), key("O|timing.sequentialIDGenerator|nextID"), key("O|timing.parallelIDGenerator|nextID")
